@@ -56,6 +56,15 @@ class Base:
         w = v * 2 + RECV.k
         return w
 
+    def relay(RECV, others, v):
+        # re-entered on the next receiver *before* this call's own w is assigned
+        if others:
+            r = others[0].relay(others[1:], v + 1)
+        else:
+            r = 0
+        w = v + RECV.k + r
+        return w
+
     @property
     def prop(RECV):
         w = RECV.k + 100
@@ -101,6 +110,7 @@ class FalsyList(list):
         self.k = k
 
     meth = Base.meth
+    relay = Base.relay
     dmeth = Base.dmeth
     prop = Base.prop
     dprop = Base.dprop
@@ -118,8 +128,26 @@ def sweep(objs, v):
     return out
 
 
+def walk(objs, v):
+    return objs[0].relay(objs[1:], v)
+
+
 class Holder:
     pass
+
+
+def probe_here(text):
+    # the selector is *written here*: its names resolve against this frame's locals, then the
+    # module globals (gobj, meth), never against the locals of whoever called this function
+    from ptera import probing
+
+    return probing(text)
+
+
+def caller_with_clash(text, clash):
+    gobj = clash
+    meth = clash.meth
+    return probe_here(text)
 '''
 
 CLASSES = ["Base", "Sub", "EqAll", "EqNoHash", "Falsy", "FalsyList"]
@@ -172,9 +200,22 @@ def _check_one(recv, pop, calls, sel, rec=None, prelude=None):
         text = f"holder.inner.obj.{kind} > {focus}"
     elif path == "nested":
         text = f"sweep > o{ti}.meth > {focus}"
+    elif path == "relay":
+        text = f"o{ti}.relay > {focus}"
+    elif path == "relay-nested":
+        text = f"walk > o{ti}.relay > {focus}"
+        env["walk"] = glb["walk"]
+    elif path == "relay-class":
+        text = f"Base.relay > {focus}"
+    elif path == "implicit":
+        text = f"gobj.{kind} > {focus}"
+        glb["gobj"] = objs[ti]
+    elif path == "implicit-plain":
+        text = f"meth > {focus}"
     else:
         raise ValueError(path)
-    by_object = path in ("object", "dotted", "nested")
+    by_object = path in ("object", "dotted", "nested", "relay", "relay-nested", "implicit")
+    relay = path.startswith("relay")
     # ---- model
     want = []  # (value of focus, receiver index)
     results_want = []
@@ -183,15 +224,29 @@ def _check_one(recv, pop, calls, sel, rec=None, prelude=None):
             _, i, ck, v = c
             k = pop[i][1]
             results_want.append(expected_w(ck, k, v))
-            if ck == kind and path != "nested":
+            if ck == kind and path != "nested" and not relay and path != "implicit-plain":
                 if not by_object or i == ti:
                     want.append((expected_w(ck, k, v) if focus == "w" else v, i))
         elif c[0] == "plain":
             results_want.append(c[1] - 1)
+            if path == "implicit-plain":
+                want.append((c[1] - 1 if focus == "w" else c[1], None))
+        elif c[0] == "walk":
+            v = c[1]
+            ws = [0] * (len(pop) + 1)
+            for i in range(len(pop) - 1, -1, -1):
+                ws[i] = (v + i) + pop[i][1] + ws[i + 1]
+            results_want.append(ws[0])
+            if relay:
+                # v is bound on the way in (outermost first), w on the way out (innermost first)
+                order = range(len(pop)) if focus == "v" else range(len(pop) - 1, -1, -1)
+                for i in order:
+                    if path == "relay-class" or i == ti:
+                        want.append((ws[i] if focus == "w" else v + i, i))
         else:
             v = c[1]
             results_want.append([v + k for _, k in pop])
-            if kind == "meth":
+            if kind == "meth" and not relay and path != "implicit-plain":
                 for i, (_, k) in enumerate(pop):
                     if path == "nested":
                         if i == ti:
@@ -203,7 +258,14 @@ def _check_one(recv, pop, calls, sel, rec=None, prelude=None):
     results = []
     ctxt = f"receiver name {recv!r}, population {pop}, selector {text!r}, calls {calls}"
     try:
-        with probing(text, env=env) as p:
+        if path.startswith("implicit"):
+            # no env: the names are looked up where the selector is written (a helper called
+            # from a function whose own locals gobj / meth are bound to something else)
+            other = objs[(ti + 1) % len(objs)]
+            pr = glb["caller_with_clash"](text, other)
+        else:
+            pr = probing(text, env=env)
+        with pr as p:
             p.subscribe(lambda d: got.append(d))
             for c in calls:
                 if c[0] == "m":
@@ -214,6 +276,8 @@ def _check_one(recv, pop, calls, sel, rec=None, prelude=None):
                         results.append(getattr(objs[i], ck)(v))
                 elif c[0] == "plain":
                     results.append(glb["meth"](c[1]))
+                elif c[0] == "walk":
+                    results.append(glb["walk"](objs, c[1]))
                 else:
                     results.append(glb["sweep"](objs, c[1]))
     except BaseException as e:
@@ -268,12 +332,15 @@ def strategy():
         recv = draw(st.sampled_from(["self", "me"]))
         n = draw(st.integers(2, 5))
         pop = [(draw(st.sampled_from(CLASSES + ["EqAll", "EqNoHash", "EqAll"])), draw(st.integers(0, 3))) for _ in range(n)]
-        path = draw(st.sampled_from(["class", "subclass", "object", "object", "dotted", "nested"]))
+        path = draw(st.sampled_from(["class", "subclass", "object", "object", "dotted", "nested", "relay", "relay-nested",
+                                     "relay-class", "implicit", "implicit-plain"]))
         kind = draw(st.sampled_from(["meth", "meth", "dmeth", "prop", "dprop"]))
         ti = draw(st.integers(0, n - 1))
         if path in ("object", "dotted") and kind in ("prop", "dprop"):
             kind = "meth"  # obj.prop would evaluate the property
-        if path == "nested":
+        if path in ("nested", "implicit-plain") or path.startswith("relay"):
+            kind = "meth"
+        if path == "implicit" and kind in ("prop", "dprop"):
             kind = "meth"
         focus = "w" if kind in ("prop", "dprop") else draw(st.sampled_from(["w", "w", "v"]))
         calls = []
@@ -283,6 +350,10 @@ def strategy():
                 calls.append(("plain", draw(st.integers(0, 5))))
             elif c == 1:
                 calls.append(("sweep", draw(st.integers(0, 5))))
+            elif c == 2 or (c < 6 and path.startswith("relay")):
+                calls.append(("walk", draw(st.integers(0, 5))))
+            elif c == 3 and path == "implicit-plain":
+                calls.append(("plain", draw(st.integers(0, 5))))
             else:
                 ck = kind if draw(st.integers(0, 2)) else draw(st.sampled_from(["meth", "dmeth", "prop", "dprop"]))
                 calls.append(("m", draw(st.integers(0, n - 1)), ck, draw(st.integers(0, 5))))
